@@ -99,6 +99,10 @@ class Metric:
         for i in range(N):
             for j in range(N):
                 v = model.eval(self.D(i, j), model_completion=True)
+                if z3.is_algebraic_value(v):
+                    # an irrational model value (obligations with squares): 30-digit rational approximation; the replay is
+                    # skipped by order_preserved() if that changes the order or the ties of the table
+                    v = v.approx(30)
                 T[i][j] = Fraction(v.numerator_as_long(), v.denominator_as_long())
         return T
 
